@@ -237,10 +237,12 @@ def compare(case, res, a=None):
     return True, detail, got
 
 
-def classify_f2(case, res, a, impl_is: str):
+def classify_f2(case, res, a, impl_is: str, graph_rec=None):
     """K-C01-F2: some additive term lacks a contracted index that a sibling carries AND is hoisted over
-    (not assignment_hoist_ok), the implementation is today's desugaring, and the result equals what
-    today's desugared tree denotes (= the spec with that term multiplied by the index's size)."""
+    (not assignment_hoist_ok), the implementation is today's desugaring, and the result equals the spec
+    with that term multiplied by the index's size -- as today's desugared tree denotes it (today_table) or
+    as the REAL iteration graph places it (f2_graph_pattern: the graph has the spec's monomials, some summed
+    additionally over indexes they lack)."""
     if impl_is != "today" or S.assignment_hoist_ok(a):
         return False
     env, _ = env_of_inputs(case, res)
@@ -250,8 +252,17 @@ def classify_f2(case, res, a, impl_is: str):
         return False
     if list(res["out"].get("dims", [])) != S.out_dims(a, case["sizes"]):
         return False
-    today = S.today_table(a, env, case["sizes"])
-    return all(got.get(c, Fraction(0)) == v for c, v in today.items()) and all(c in today for c in got)
+
+    def same(table):
+        return all(got.get(c, Fraction(0)) == v for c, v in table.items()) and all(c in table for c in got)
+
+    if same(S.today_table(a, env, case["sizes"])):
+        return True
+    if graph_rec is not None:
+        pattern = S.f2_graph_pattern(a, graph_rec["graph"], graph_rec["orderings"])
+        if pattern is not None and any(extra for _, _, extra in pattern):
+            return same(S.f2_graph_table(a, pattern, env, case["sizes"]))
+    return False
 
 
 # ------------------------------------------------------------------------------------------------
@@ -454,50 +465,74 @@ def coq_graph(g) -> str:
     return f"(GSum {S.clist(coq_graph(t) for t in g[1])})"
 
 
-def stage_graphs(chk, problems: list[dict]):
-    """problems: [{assignment, formats}] (distinct).  Every graph Python builds must be accepted by
-    DesugarSemGraph.graph_ok against Python's desugared right-hand side."""
+def stage_graphs(chk, problems: list[dict], impl_is: str) -> dict:
+    """problems: [{assignment, formats}] (distinct).  Every graph Python builds must be accepted by the
+    verified checker DesugarSemGraph.graph_ok_spec against the SPECIFICATION of the assignment.  On
+    today's tree the graphs of F2-sensitive assignments that put a term under a loop whose index it
+    lacks are rejected: that is K-C01-F2 seen at graph level (classified by f2_graph_pattern).
+    Returns {(assignment, formats-json): record} for the F2 classifier of the sweep."""
     rc, err, outp = run_worker("graphs", {"problems": problems}, "graphs")
     if rc != 0 or not outp.exists():
         chk.broken.append({"kind": "correspondence", "stage": "graphs", "error": err[-1500:]})
-        return
+        return {}
     recs = [r for r in json.loads(outp.read_text()) if "graph" in r]
     files = []
-    for lo in range(0, len(recs), 300):
-        rows = []
-        for r in recs[lo:lo + 300]:
+    usable = []
+    for r in recs:
+        try:
+            a = S.parse_assignment(r["assignment"])
             ords = S.clist(f"({S.cstr(n)}, {sweep.natlist(o)})" for n, o in sorted(r["orderings"].items()))
-            rows.append(f"({ords}, {coq_dexpr(r['desugared'])}, {coq_graph(r['graph'])})")
+            row = (f"({ords}, {S.coq_assignment(a, FLOAT_SCALE)}, {coq_dexpr(r['desugared'])}, "
+                   f"{coq_graph(r['graph'])})")
+        except ValueError:
+            continue
+        usable.append((r, a, row))
+    for lo in range(0, len(usable), 300):
+        rows = [u[2] for u in usable[lo:lo + 300]]
         files.append((lo, "From Coq Require Import ZArith List String.\nFrom TV Require Import spec.Storage spec.Spec "
                       "model.DesugarSem model.Exhaust model.DesugarSemGraph.\nImport ListNotations.\nOpen Scope Z_scope.\n"
-                      "Definition cases : list (list (string * list nat) * dexpr Z * graph Z) :=\n ["
+                      "Definition cases : list (list (string * list nat) * assignment Z * dexpr Z * graph Z) :=\n ["
                       + ";\n  ".join(rows) + "].\n"
-                      "Eval vm_compute in (false_positions (map (fun '(o, d, g) => "
-                      "graph_ok (fun n => match lookup n o with Some l => l | None => [] end) Z.eqb d g) cases)).\n"))
+                      "Definition ords_of (o : list (string * list nat)) (n : string) : list nat := "
+                      "match lookup n o with Some l => l | None => [] end.\n"
+                      "Eval vm_compute in (false_positions (map (fun '(o, a, d, g) => graph_ok_spec (ords_of o) Z.eqb a g) cases), "
+                      "false_positions (map (fun '(o, a, d, g) => graph_ok (ords_of o) Z.eqb d g) cases)).\n"))
     with ThreadPoolExecutor(max_workers=4) as ex:
         outs = list(ex.map(lambda t: (t[0], chk.coq_eval(f"c01_p{os.getpid()}_graphs_{t[0]}", t[1])), files))
-    rejected = 0
+    rejected = known = 0
     for lo, (ok, out) in outs:
         if not ok:
             chk.broken.append({"kind": "correspondence", "stage": "graphs", "coq_error": out[-1500:]})
             continue
-        for i in (parse_nat_lists(out) or [[]])[0]:
+        lists = parse_nat_lists(out)
+        bad_spec, bad_desugared = lists[0], set(lists[1])
+        for i in bad_spec:
+            r, a, _ = usable[lo + i]
+            pattern = S.f2_graph_pattern(a, r["graph"], r["orderings"])
+            if (impl_is == "today" and not S.assignment_hoist_ok(a) and pattern is not None
+                    and any(extra for _, _, extra in pattern)):
+                known += 1
+                chk.known_finding(K_F2, F2_TEXT)
+                continue
             rejected += 1
             if rejected <= 5:
-                r = recs[lo + i]
                 chk.broken.append({"kind": "certificate", "stage": "graphs",
-                                   "what": "the iteration graph built by /repo is rejected by the verified checker graph_ok: "
-                                           "as a loop nest it does not denote the desugared assignment",
+                                   "what": "the iteration graph built by /repo is rejected by the verified checker "
+                                           "graph_ok_spec: as a loop nest it does not denote the specification",
                                    "assignment": r["assignment"], "formats": r["formats"], "graph": r["graph"],
-                                   "desugared": r["desugared"]})
-    for r in recs:
+                                   "also_rejected_against_python_desugared_tree": (i in bad_desugared)})
+        chk.count("graphs.differ_from_python_desugared_tree", len(bad_desugared))
+    for r, a, _ in usable:
         chk.case(("graph", r["assignment"], json.dumps(r["formats"], sort_keys=True)))
-    chk.count("graphs.validated", len(recs))
+    chk.count("graphs.validated", len(usable))
     chk.count("graphs.rejected", rejected)
-    chk.count("graphs.with_sum_node", sum(1 for r in recs if '"S"' in json.dumps(r["graph"])))
-    if recs:
-        chk.sample({"stage": "graphs", "assignment": recs[-1]["assignment"], "formats": recs[-1]["formats"],
-                    "graph": recs[-1]["graph"]})
+    chk.count("graphs.rejected_known_F2", known)
+    chk.count("graphs.with_sum_node", sum(1 for r, _, _ in usable if '"S"' in json.dumps(r["graph"])))
+    if usable:
+        chk.sample({"stage": "graphs", "assignment": usable[-1][0]["assignment"], "formats": usable[-1][0]["formats"],
+                    "graph": usable[-1][0]["graph"]})
+    return {(r["assignment"], json.dumps(r["formats"], sort_keys=True)): r for r, _, _ in usable}
+
 
 # ------------------------------------------------------------------------------------------------
 # stage: spec evaluated inside Coq, cross-checked against the Python mirror
@@ -625,7 +660,7 @@ def replay_payload(case, res, detail):
             "actual": res.get("out"), "detail": detail}
 
 
-def judge_all(chk, cases, results, crashes, impl_is, workers, tag):
+def judge_all(chk, cases, results, crashes, impl_is, workers, tag, graph_of=None):
     """Judge executed cases; returns the list of judged records."""
     by_id = {c["id"]: c for c in cases}
     judged, suspects = [], []
@@ -675,7 +710,8 @@ def judge_all(chk, cases, results, crashes, impl_is, workers, tag):
     twins = []
     for rec in suspects:
         case, res, a = rec["case"], rec["res"], rec["a"]
-        if classify_f2(case, res, a, impl_is):
+        grec = (graph_of or {}).get((case["assignment"], json.dumps(case["formats"], sort_keys=True)))
+        if classify_f2(case, res, a, impl_is, grec):
             rec["known"] = K_F2
             chk.known_finding(K_F2, F2_TEXT)
             chk.count("known.F2")
@@ -882,15 +918,16 @@ def run(chk):
             seen_p.add(key)
             probs.append({"assignment": c["assignment"], "formats": c["formats"]})
     okg, logg = chk.coq_make(["proofs/DesugarSemGraphProofs.vo"])
+    graph_of = {}
     if okg:
-        stage_graphs(chk, probs)
+        graph_of = stage_graphs(chk, probs, impl_is)
     else:
         chk.broken.append({"kind": "proof", "file": "proofs/DesugarSemGraphProofs.v", "coq_output_tail": logg[-1500:]})
 
     # ---------------------------------------------------------------- run + judge
     results, crashes = run_cases(chk, cases, workers, "sweep", per_case_timeout=60 if thorough else 30)
     chk.note(f"sweep executed after {time.time() - t0:.0f}s")
-    judged = judge_all(chk, cases, results, crashes, impl_is, workers, "sweep")
+    judged = judge_all(chk, cases, results, crashes, impl_is, workers, "sweep", graph_of)
     missing = [c for c in cases if c["id"] not in results and not any(cr[0] is c for cr in crashes)]
     if missing:
         chk.broken.append({"kind": "harness", "stage": "eval", "what": f"{len(missing)} cases produced no result",
